@@ -47,6 +47,21 @@ typedef struct { int line; cstr file; cstr function; cstr category; int version;
 static inline QMessageLogContext QMessageLogContext_ctor__cstr_int_cstr_cstr(cstr file, int line, cstr function, cstr category)
 { QMessageLogContext c; c.version = 2; c.line = line; c.file = file; c.function = function; c.category = category; return c; }
 
+/* std::reverse_iterator over an abstract list whose const_iterator is {LIST *l; int i;}: the reverse iterator {l, i} has base() index i and
+ * designates element i-1 (crbegin: i = n, crend: i = 0).  DEREF_FWD is the unit's dereference model of the forward const_iterator. */
+#define DEFINE_REVERSE_ITERATORS(LIST, ELEM, DEREF_FWD) \
+typedef struct { LIST *l; int i; } std_reverse_iterator_##LIST##_const_iterator; \
+static inline std_reverse_iterator_##LIST##_const_iterator LIST##_crbegin_const(LIST *l) { std_reverse_iterator_##LIST##_const_iterator r; r.l = l; r.i = l->n; return r; } \
+static inline std_reverse_iterator_##LIST##_const_iterator LIST##_crend_const(LIST *l) { std_reverse_iterator_##LIST##_const_iterator r; r.l = l; r.i = 0; return r; } \
+static inline std_reverse_iterator_##LIST##_const_iterator LIST##_rbegin_const(LIST *l) { return LIST##_crbegin_const(l); } \
+static inline std_reverse_iterator_##LIST##_const_iterator LIST##_rend_const(LIST *l) { return LIST##_crend_const(l); } \
+static inline BOOL op_ne__std_reverse_iterator_##LIST##_const_iterator_std_reverse_iterator_##LIST##_const_iterator(std_reverse_iterator_##LIST##_const_iterator a, std_reverse_iterator_##LIST##_const_iterator b) { return a.i != b.i; } \
+static inline BOOL op_eq__std_reverse_iterator_##LIST##_const_iterator_std_reverse_iterator_##LIST##_const_iterator(std_reverse_iterator_##LIST##_const_iterator a, std_reverse_iterator_##LIST##_const_iterator b) { return a.i == b.i; } \
+static inline std_reverse_iterator_##LIST##_const_iterator *std_reverse_iterator_##LIST##_const_iterator_op_inc(std_reverse_iterator_##LIST##_const_iterator *a) \
+{ __CPROVER_assert(a->i > 0, "reverse iterator: ++ on an iterator that is not rend()"); a->i = a->i - 1; return a; } \
+static inline ELEM std_reverse_iterator_##LIST##_const_iterator_op_deref(std_reverse_iterator_##LIST##_const_iterator it) \
+{ __CPROVER_assert(it.i > 0 && it.i <= it.l->n, "reverse iterator dereferenced inside [rbegin,rend)"); LIST##_const_iterator f; f.l = it.l; f.i = it.i - 1; return DEREF_FWD(f); }
+
 #ifndef FIND_IF_REQUIRES
 /* IT##_valid_range(first,last): last is reachable from first by ++ (forward: first.i <= last.i; reverse: first.i >= last.i) */
 #define FIND_IF_REQUIRES(IT, first, last) __CPROVER_assert(IT##_valid_range(first, last), "std::find_if precondition: [first,last) is a valid range (last reachable from first)")
